@@ -495,4 +495,7 @@ func main() {
 
 	// T2: regenerated straight-line numeric code (numeric.go + one table file per property)
 	emitNumericModels(repo, out)
+
+	// T3: structural concurrency facts (facts.go)
+	emitFacts(repo, out)
 }
